@@ -103,9 +103,21 @@ func (in *inliner) noCalls(e ast.Expr) bool {
 	return ok
 }
 
+func (in *inliner) noFuncLit(e ast.Expr) bool {
+	ok := true
+	ast.Inspect(e, func(n ast.Node) bool {
+		if _, isF := n.(*ast.FuncLit); isF {
+			ok = false
+		}
+		return true
+	})
+	return ok
+}
+
 // hoist rewrites the min/max calls inside *ep (post-order) and returns the statements to put in front.
 func (in *inliner) hoist(ep *ast.Expr) []ast.Stmt {
 	var pre []ast.Stmt
+	top := *ep
 	var walk func(ep *ast.Expr)
 	walk = func(ep *ast.Expr) {
 		switch x := (*ep).(type) {
@@ -126,9 +138,26 @@ func (in *inliner) hoist(ep *ast.Expr) []ast.Stmt {
 			if kind == "" {
 				return
 			}
+			allPure := true
 			for _, a := range x.Args {
 				if !in.pure(a) {
+					allPure = false
+				}
+			}
+			if !allPure {
+				// operands with calls or index expressions: only when the call is the whole right-hand side
+				// (top), where binding the operands in order, once each, is exactly what the call does
+				if *ep != top || !in.noFuncLit(x) {
 					return
+				}
+				for i, a := range x.Args {
+					if tv, ok := in.pkg.TypesInfo.Types[a]; ok && tv.Value != nil {
+						continue // constants stay
+					}
+					*in.serial++
+					name := fmt.Sprintf("a_x%d", *in.serial)
+					pre = append(pre, &ast.AssignStmt{Lhs: []ast.Expr{ast.NewIdent(name)}, Tok: token.DEFINE, Rhs: []ast.Expr{a}})
+					x.Args[i] = ast.NewIdent(name)
 				}
 			}
 			// start from a non-constant operand so that the temporary gets the operand type
